@@ -149,4 +149,34 @@ def oracle(ctx, budget=1, replay=None, hints=None):
         if res[0][1] != 'suppress':
             fails.append(dict(what='an arc passing 1.5 units deep through a region is not excluded (%s)' % res[0][1], signature='C16:arc-not-excluded',
                               case=dict(start=[x0r, y0r], end=[x1, y1], centre=[cx, cy], region=[mx - 1.5, my - 1.5, mx + 1.5, my + 1.5])))
-    return dict(evaluations=n, failures=fails[:10], samples=[], distribution=dict(arcs=2500 * budget, radius_form=1500 * budget, crossing=300 * budget))
+    # centre exactly level with / above the start point (I or J is 0 or omitted), and arcs run while no region is defined: the arc is
+    # sampled and tracked all the same
+    for _ in range(150 * budget):
+        n += 1
+        cx, cy, rad = float(ctx.rng.randint(50, 150)), float(ctx.rng.randint(50, 150)), float(ctx.rng.randint(5, 30))
+        side = ctx.rng.randint(0, 3)
+        x0, y0 = [(cx - rad, cy), (cx + rad, cy), (cx, cy - rad), (cx, cy + rad)][side]
+        i, j = cx - x0, cy - y0
+        ccw = ctx.rng.random() < 0.5
+        # half circle: ends opposite the start, passes through the quarter point
+        x1, y1 = 2 * cx - x0, 2 * cy - y0
+        qa = math.atan2(y0 - cy, x0 - cx) + (math.pi / 2 if ccw else -math.pi / 2)
+        mx, my = cx + rad * math.cos(qa), cy + rad * math.sin(qa)
+        words = []
+        if i != 0 or ctx.rng.random() < 0.4:
+            words.append('I%g' % i)
+        if j != 0 or ctx.rng.random() < 0.4:
+            words.append('J%g' % j)
+        cmd = '%s X%g Y%g %s' % ('G3' if ccw else 'G2', x1, y1, ' '.join(words))
+        with_region = ctx.rng.random() < 0.6
+        hreg = impl.new_handlers([('rect', 'r', mx - 1.5, my - 1.5, mx + 1.5, my + 1.5)] if with_region else [])
+        impl.run(hreg, ['G28', 'G1 X%g Y%g F3000' % (x0, y0)])
+        res = impl.run(hreg, [cmd])
+        pos = hreg.state.position
+        if with_region and res[0][1] != 'suppress':
+            fails.append(dict(what='%r from (%g,%g) passes 1.5 units deep through a region and is not excluded (%s)' % (cmd, x0, y0, res[0][1]), signature='C16:arc-not-excluded',
+                              case=dict(start=[x0, y0], command=cmd, region=[mx - 1.5, my - 1.5, mx + 1.5, my + 1.5])))
+        elif (pos.X_AXIS.current, pos.Y_AXIS.current) != (x1, y1):
+            fails.append(dict(what='after %r from (%g,%g) the tracked position is (%r,%r), not the arc end (%g,%g)' % (cmd, x0, y0, pos.X_AXIS.current, pos.Y_AXIS.current, x1, y1),
+                              signature='C16:arc-not-tracked', case=dict(start=[x0, y0], command=cmd, regions=with_region)))
+    return dict(evaluations=n, failures=fails[:10], samples=[], distribution=dict(arcs=2500 * budget, radius_form=1500 * budget, crossing=300 * budget, axis_aligned=150 * budget))
